@@ -218,7 +218,9 @@ def concatHead (lens : List Nat) (ix : Ix) : Except Err (Bool × List (Nat × Na
   | .slice a b c =>
     match sliceIndices tot a b c with
     | none => .error .value
-    | some (s, e, st) =>
+    | some (s, e0, st) =>
+      -- `if stride > 0: stop = max(stop, start)`: an empty slice still visits the part of its start
+      let e : Int := if st > 0 then max e0 s else e0
       let inds := rangeList (findIndexer starts s) (findIndexer starts e + 1) 1
       if inds.isEmpty then .error .value      -- np.concatenate([]) raises ValueError
       else do
